@@ -668,6 +668,10 @@ func runTB(dir string, seed uint64, n int) {
 	o := NewOut(dir, "tb")
 	rng := NewRng(seed)
 	for h := 0; h < n; h++ {
+		if h%5 == 4 {
+			genMT(o, rng) // the match package's wrapper around the seat manager
+			continue
+		}
 		r := &tbRunner{o: o, rng: rng}
 		max := 2 + rng.Intn(8)
 		if rng.Chance(0.3) {
